@@ -243,6 +243,41 @@ def run(rep):
         return out
     bal_dom = (0, MAXB) if binv else U64
     # ---- constructors
+    constructors(rep, invariants)
+    # ---- apply
+    for adt, sign in ((CUSTBAL, -1), (MERCHBAL, 1)):
+        m = method(prog, adt, "apply")
+        nm = adt.split("::")[-1]
+        if not rep.anchor(nm + "::apply", m):
+            continue
+        b = fld(fld(arg(1), 0, "0"), 0, "0")
+        a = fld(arg(2), 0, "0")
+        lt = {arg(1): ("adt", adt, ()), arg(2): ("adt", PAMT, ())}
+        # new = b + sign*a
+        new = {"b": 1, "a": sign}
+        neg = {"b": -1, "a": -sign}
+        spec = {"Ok": ([[(neg, 0), (new, MAXB)]], Lin(new, 0)),
+                "InsufficientFunds": ([[(new, -1)]], None),
+                "AmountTooLarge": ([[(neg, -(MAXB + 1))]], Lin(new, 0))}
+        check_function(rep, nm + "::apply", m, {"b": b, "a": a}, dom(b=bal_dom, a=I64), spec, lt, invariants)
+    rest_of_run(rep, prog, invariants, binv, bal_dom, dom, U64, I64)
+
+
+def _dom(**kw):
+    out = []
+    for v, (lo, hi) in kw.items():
+        out.append(({v: 1}, hi))
+        out.append(({v: -1}, -lo))
+    return out
+
+
+def constructors(rep, invariants):
+    """Balance / CustomerBalance / MerchantBalance::try_new and PaymentAmount::pay_merchant / pay_customer accept
+    exactly the magnitudes 0 ..= 2^63-1 (so every balance and every amount of the documented range is expressible)
+    and store exactly that value with the right sign."""
+    prog = rep.prog
+    U64 = (0, (1 << 64) - 1)
+    dom = _dom
     tn = method(prog, BAL, "try_new")
     if rep.anchor("Balance::try_new", tn):
         check_function(rep, "Balance::try_new", tn, {"v": arg(1)}, dom(v=U64),
@@ -264,22 +299,9 @@ def run(rep):
                            {"Ok": ([[({"v": 1}, MAXB)]], Lin({"v": sign}, 0)),
                             "AmountTooLarge": ([[({"v": -1}, -(MAXB + 1))]], Lin({"v": 1}, 0))},
                            {arg(1): ("prim", "u64")}, invariants)
-    # ---- apply
-    for adt, sign in ((CUSTBAL, -1), (MERCHBAL, 1)):
-        m = method(prog, adt, "apply")
-        nm = adt.split("::")[-1]
-        if not rep.anchor(nm + "::apply", m):
-            continue
-        b = fld(fld(arg(1), 0, "0"), 0, "0")
-        a = fld(arg(2), 0, "0")
-        lt = {arg(1): ("adt", adt, ()), arg(2): ("adt", PAMT, ())}
-        # new = b + sign*a
-        new = {"b": 1, "a": sign}
-        neg = {"b": -1, "a": -sign}
-        spec = {"Ok": ([[(neg, 0), (new, MAXB)]], Lin(new, 0)),
-                "InsufficientFunds": ([[(new, -1)]], None),
-                "AmountTooLarge": ([[(neg, -(MAXB + 1))]], Lin(new, 0))}
-        check_function(rep, nm + "::apply", m, {"b": b, "a": a}, dom(b=bal_dom, a=I64), spec, lt, invariants)
+
+
+def rest_of_run(rep, prog, invariants, binv, bal_dom, dom, U64, I64):
     # ---- try_add
     m = method(prog, MERCHBAL, "try_add")
     if rep.anchor("MerchantBalance::try_add", m):
@@ -289,6 +311,14 @@ def run(rep):
         s = {"m": 1, "c": 1}
         spec = {"Ok": ([[(s, MAXB)]], Lin(s, 0)), "AmountTooLarge": ([[({"m": -1, "c": -1}, -(MAXB + 1))]], Lin(s, 0))}
         check_function(rep, "MerchantBalance::try_add", m, {"m": x, "c": y}, dom(m=bal_dom, c=bal_dom), spec, lt, invariants)
+    encodings(rep, invariants)
+    sweep(rep, invariants)
+
+
+def encodings(rep, invariants, amounts=True):
+    """into_inner returns the stored integer; Balance::to_scalar and PaymentAmount::to_scalar are the ring map of the
+    exact integer (injective on the documented ranges) and cannot panic."""
+    prog = rep.prog
     # ---- into_inner / to_scalar / to_i64
     for adt in (CUSTBAL, MERCHBAL):
         nm = adt.split("::")[-1]
@@ -314,7 +344,7 @@ def run(rep):
             else:
                 rep.fail("encoding", nm + "::to_scalar", "to_scalar is not Scalar::from(balance): %s" % (S2.show(e) if e else None), site=ts.loc())
     ts = method(prog, PAMT, "to_scalar")
-    if rep.anchor("PaymentAmount::to_scalar", ts):
+    if amounts and rep.anchor("PaymentAmount::to_scalar", ts):
         rep.fn(ts)
         S = Session(prog)
         e = S.eval(ts)
@@ -347,6 +377,10 @@ def run(rep):
             rep.ok("encoding", "PaymentAmount::to_scalar", sample="enc(a) for a >= 0, -enc(|a|) for a < 0, exact on both branches")
         else:
             rep.fail("encoding", "PaymentAmount::to_scalar", "scalar encoding of an amount is not the ring map of the integer on every branch: %s" % (S.show(e)[:400] if e else None), site=ts.loc())
+
+
+def sweep(rep, invariants):
+    prog = rep.prog
     # ---- sweep: every hand-written method / trait impl of the four arithmetic types is total
     rep.rule("total-sweep", "every hand-written inherent method or trait-impl method whose self type is Balance / CustomerBalance / MerchantBalance / PaymentAmount has all its panic obligations discharged for all inputs")
     nsweep = 0
@@ -399,3 +433,11 @@ def strip_enc(S, t, sign):
     if t[0] == "neg" and t[1][0] == "from_int":
         return t[1][1]
     return ("?",)
+
+
+def value_encoding(rep, amounts=True):
+    """Shared necessary condition of the zkAbacus statements: the integers the parties agree on (balances, amounts)
+    enter the proofs through the exact, injective ring map - otherwise two different ledgers satisfy one statement."""
+    from ..core import RuleView
+    rep.rule("value-encoding", "necessary condition shared with C17: Balance::to_scalar = enc(b), PaymentAmount::to_scalar = enc(a) on both sign branches, into_inner returns the stored integer; a lossy or sign-confused encoding lets a proof for one ledger be accepted for another")
+    encodings(RuleView(rep, {"encoding": "value-encoding", "exact": "value-encoding", "total": "value-encoding"}), dict(INV), amounts=amounts)
